@@ -16,6 +16,41 @@ use std::sync::{Arc, Mutex};
 use std::thread;
 use std::time::{Duration, Instant};
 
+/// Largest single allocation request seen while a case runs. The decoders legitimately allocate a buffer of the declared
+/// remaining length (< 2^28 bytes) and the `big` op builds payloads of up to 300 MB; anything of 512 MB or more in one
+/// request is appended to the case's result as `;ALLOC=<bytes>`.
+struct Tracking;
+static MAX_REQ: std::sync::atomic::AtomicUsize = std::sync::atomic::AtomicUsize::new(0);
+const ALLOC_LIMIT: usize = 1 << 29;
+
+#[inline]
+fn note(n: usize) {
+    if n >= ALLOC_LIMIT {
+        MAX_REQ.fetch_max(n, std::sync::atomic::Ordering::Relaxed);
+    }
+}
+
+unsafe impl std::alloc::GlobalAlloc for Tracking {
+    unsafe fn alloc(&self, l: std::alloc::Layout) -> *mut u8 {
+        note(l.size());
+        std::alloc::System.alloc(l)
+    }
+    unsafe fn alloc_zeroed(&self, l: std::alloc::Layout) -> *mut u8 {
+        note(l.size());
+        std::alloc::System.alloc_zeroed(l)
+    }
+    unsafe fn realloc(&self, p: *mut u8, l: std::alloc::Layout, n: usize) -> *mut u8 {
+        note(n);
+        std::alloc::System.realloc(p, l, n)
+    }
+    unsafe fn dealloc(&self, p: *mut u8, l: std::alloc::Layout) {
+        std::alloc::System.dealloc(p, l)
+    }
+}
+
+#[global_allocator]
+static ALLOCATOR: Tracking = Tracking;
+
 const LIMIT_DEFAULT: Duration = Duration::from_secs(20);
 const LIMIT_RANGE: Duration = Duration::from_secs(60);
 
@@ -82,7 +117,9 @@ fn main() {
             started: Instant::now(),
             limit,
         });
+        MAX_REQ.store(0, std::sync::atomic::Ordering::Relaxed);
         let mut result = ops::run_case(line);
+        let big = MAX_REQ.load(std::sync::atomic::Ordering::Relaxed);
         // No case of the unchanged library prints more than about 1 MB. A changed one may (a decoder
         // that believes a 256 MB body arrived): keep the head of the line, so the run stays bounded.
         if result.len() > MAX_LINE {
@@ -93,6 +130,9 @@ fn main() {
             }
             result.truncate(cut);
             result = format!("OVERSIZE len={};{}", n, result);
+        }
+        if big > 0 {
+            result.push_str(&format!(";ALLOC={}", big));
         }
         // Same lock order as the watchdog (current, then out): exactly one of
         // the two writes the line for this case.
